@@ -278,7 +278,7 @@ func runC16(c *core.Ctx) {
 				"the case closes the cancellation channel", "the case does not close the cancellation channel: the worker keeps waiting for work / producers are never released")
 		}
 	})
-	c.Floor("R16.3", "result-receiving select cases", nCases, 2)
+	c.Floor("R16.3", "result-receiving select cases", nCases, 1)
 	// R16.6: 'cancelled' is closed only where a (non-nil) result has just been received: any other
 	// close lets the worker stop early and report nil, which turns an interruption into "valid".
 	nClose := 0
@@ -311,7 +311,7 @@ func runC16(c *core.Ctx) {
 			"the cancellation channel is closed only in a case that has just received a worker/consumer result",
 			"the cancellation channel is closed outside the result-receiving cases: the worker then stops early and reports nil, so an interrupted fail-fast validation can return nil for a damaged directory")
 	})
-	c.Floor("R16.6", "close(cancelled) sites", nClose, 2)
+	c.Floor("R16.6", "close(cancelled) sites", nClose, 1)
 	// (b) shutdown order
 	closeIdx := firstInstr(validateFn, isCloseOf(idxChan, nil))
 	recvWorker := firstInstr(validateFn, func(in ssa.Instruction) bool {
@@ -443,7 +443,7 @@ func runC16(c *core.Ctx) {
 			}
 		}
 	}
-	c.Floor("R16.5", "WoundsConsumer implementations", nCons, 4)
+	c.Floor("R16.5", "WoundsConsumer implementations", nCons, 2)
 }
 
 func isCloseOf(ch ssa.Value, pred func(ssa.Value) bool) ipred {
@@ -645,11 +645,6 @@ func hasNilTestBypass(fn *ssa.Function, isCallback ipred, field string) bool {
 		return false
 	}
 	return hasGuard(cb, func(g core.Guard) bool {
-		bo, ok := g.Cond.(*ssa.BinOp)
-		if !ok || bo.Op != token.NEQ || !g.Val {
-			return false
-		}
-		_, name, ok := core.FieldOf(bo.X)
-		return ok && name == field && core.IsNilConst(bo.Y)
+		return relHolds(g, token.NEQ, isField(field), core.IsNilConst)
 	}) && len(core.Guards(cb)) == 1
 }
